@@ -17,10 +17,11 @@ HARNESSES = [
     dict(name="radius", pkg="./plugins/auth/radius/", test="TestVerifC03Radius", timeout=300,
          files=[("plugins/auth/radius/zz_verif_c03_radius_test.go", "harness/C03/zz_verif_c03_radius_test.go")]),
 ]
-# every C03 finding is fixed in /repo (KNOWN_FINDINGS.txt, last: e9950ea, 0709f1b): the only variant is what /repo HEAD does; a
-# regression to any fixed defect is a VIOLATION.  (The driver still accepts "defective" / "noteardown" / "heldanswer" = HEAD
-# before those two commits, used only when a patch is validated on a scratch tree.)
-VARIANTS = ["repaired"]
+# first variant = the repaired code; "sbfailtwice" = /repo HEAD with the one open (known:) finding
+# pppoe-vpp-failure-after-teardown.  Every other C03 finding is fixed in /repo: a regression to one of them is a VIOLATION.
+# (The driver still accepts "defective" / "noteardown" / "heldanswer" = the code before e9950ea / 0709f1b, used only when a
+# patch is validated on a scratch tree.)
+VARIANTS = ["repaired", "sbfailtwice"]
 MODEL_NEEDS_IMPL = True   # only for the FSM table flavour reported by the harness (see notes/C03.md)
 RULE = ("pppoe: (a) systematic: each of 16 prefixes reaching a distinct phase/FSM situation (fresh, LCP open, auth pending, "
         "network, open, renegotiated, renegotiated+pending, re-authenticating, rejected, terminated, static address, "
@@ -238,8 +239,42 @@ def gen_pppoe_parked():
     return cases
 
 
+def gen_pppoe_sbfail():
+    """v:fail — the dataplane reports that the oldest queued session add failed (onVPPSessionCreated with an error ->
+    tearDownSessionAfterVPPFailure).  From every situation with an add queued (open with pool / static address, one or
+    two subscribers, before and after DHCPv6, after the session was torn down by PADT / dead peer / reject of a
+    re-authentication-free close), followed by probes incl. a full re-open.  Not generated: a failure report for a
+    session that was torn down AND whose addresses somebody else has taken since (see notes: /repo HEAD frees the other
+    subscriber's lease there), nor after a re-PADR (superseded incarnation)."""
+    def full(i, k, kind="acc"):
+        return ["o:%d" % i] + at(i, lcp_up(0)) + [fr(i, "chap", "resp"), "a:%d:%s" % (k, kind)] + at(i, ncp_up(0))
+    reopen = full(0, 9) + ["a:2:acc", "a:3:acc", "a:4:acc"] + at(0, ncp_up(0)) + ["v:ok", fr(0, "ip6", "dh_req")]
+    probes = [[fr(0, "ipcp", "creq_ok"), fr(0, "ip6", "rs"), fr(0, "ip6", "dh_sol"), "x:0", "v:ok"], reopen,
+              ["v:fail", "v:ok", fr(0, "lcp", "echoreq"), "d:0"] + reopen]
+    sits = {
+        "open": full(0, 1),
+        "static": full(0, 1, "accip"),
+        "open_dh6": full(0, 1) + [fr(0, "ip6", "dh_sol"), fr(0, "ip6", "dh_req")],
+        "torn_padt": full(0, 1) + ["x:0"],
+        "torn_dead": full(0, 1) + [fr(0, "ip6", "dh_req"), "d:0"],
+        "torn_lcp": full(0, 1) + [fr(0, "lcp", "treq")],
+        "two": full(0, 1) + full(1, 2),
+        "two_first_torn": full(0, 1) + ["o:1"] + at(1, lcp_up(0)) + ["x:0"],
+        "programmed": full(0, 1) + ["v:ok"],                       # nothing queued: v:fail is a no-op
+    }
+    cases = []
+    for pools in ("2/2/2", "2/0/16", "2/16/0", "1/1/16"):
+        for name, p in sits.items():
+            for pr in probes:
+                cases.append("pppoe %s " % pools + " ".join(p + ["v:fail"] + pr))
+            if name == "two":
+                cases.append("pppoe %s " % pools + " ".join(p + ["v:fail", "v:fail"] + probes[0]))
+                cases.append("pppoe %s " % pools + " ".join(p + ["v:ok", "v:fail", fr(1, "ip6", "dh_req"), fr(0, "ip6", "dh_req")]))
+    return cases
+
+
 def gen_pppoe(rng, tier, budget):
-    cases = gen_pppoe_raced() + gen_pppoe_parked() + gen_pppoe_v6(random.Random(rng.random()), tier)
+    cases = gen_pppoe_raced() + gen_pppoe_parked() + gen_pppoe_sbfail() + gen_pppoe_v6(random.Random(rng.random()), tier)
     pf = prefixes()
     for name, p in pf.items():
         for e in alphabet():
@@ -456,6 +491,12 @@ def classify(case, impl, model):
 def signature(case, impl, models):
     t = case.split()
     rep, dfc = models["repaired"], models.get("defective", models["repaired"])
+    if t[0] == "pppoe" and impl == models.get("sbfailtwice"):
+        k = first_div(rep, impl)
+        ev = t[2:]
+        if k < len(ev) and ev[k] == "v:fail":
+            return "pppoe-vpp-failure-after-teardown"
+        return "pppoe-unexplained"
     if t[0] == "pppoe":
         # the implementation equals one of the defect variants: classify by the first step where it leaves the
         # repaired model
@@ -539,6 +580,24 @@ def distribution(cases, impl):
         d["monitor_violations"] += ("MON:VIOLATION" in o)
         d["panics"] += ("panic" in o)
         st = steps(o)
+        # audit 2 / deepen: IPv6 leases, held answers, dataplane add failures
+        d["held_answer_pairs"] = d.get("held_answer_pairs", 0) + sum(e.startswith("S:") for e in ev)
+        d["dh6_advertise"] = d.get("dh6_advertise", 0) + o.count("ADV6")
+        d["dh6_reply"] = d.get("dh6_reply", 0) + o.count("REPLY6")
+        d["prefix_routes_added"] = d.get("prefix_routes_added", 0) + o.count("sbpd+")
+        d["ipv6_rebinds"] = d.get("ipv6_rebinds", 0) + o.count("sb6-")
+        pools = [s.rsplit("|", 1)[-1].split("/") for s in st if s.count("|") >= 2]
+        d["cases_iana_pool_exhausted"] = d.get("cases_iana_pool_exhausted", 0) + any(len(p) == 3 and p[1] == "0" for p in pools)
+        d["cases_pd_pool_exhausted"] = d.get("cases_pd_pool_exhausted", 0) + any(len(p) == 3 and p[2] == "0" for p in pools)
+        for k, e in enumerate(ev):
+            if e == "v:fail" and k < len(st):
+                outs = st[k].split("|")[0]
+                d["sbfail_events"] = d.get("sbfail_events", 0) + 1
+                d["sbfail_teardowns"] = d.get("sbfail_teardowns", 0) + ("lifeR" in outs)
+                before = st[k - 1].split("|")[1].split(",") if k > 0 else []
+                slot = int(outs[0]) if outs[:1].isdigit() else -1
+                torn = 0 <= slot < len(before) and before[slot].startswith("d")
+                d["sbfail_on_torn_session"] = d.get("sbfail_on_torn_session", 0) + ("lifeR" in outs and torn)
         for k, e in enumerate(ev):
             if k < len(st) and (":ipcp:" in e or ":ip6cp:" in e) and e.startswith("f:") and st[k].split("|")[0] == "":
                 d["gated_ncp_frames"] += 1
